@@ -81,13 +81,18 @@ func formatNumberUnitShort[T NumberType](amount T, unit *UnitDefinition, display
 	case float64:
 		formatString = "%f"
 	}
+	number := fmt.Sprintf(formatString, amount)
+	if strings.Contains(number, ".") {
+		// Trim the fractional zeros of a float, then the dot if nothing is left behind it.
+		number = strings.TrimRight(strings.TrimRight(number, "0"), ".")
+	}
 	switch {
 	case amount == 1 || amount == -1:
-		return strings.TrimRight(fmt.Sprintf(formatString, amount), "0.") + unit.NameShortSingular()
+		return number + unit.NameShortSingular()
 	case amount != 0:
-		return strings.TrimRight(fmt.Sprintf(formatString, amount), "0.") + unit.NameShortPlural()
+		return number + unit.NameShortPlural()
 	case displayZero:
-		return strings.TrimRight(fmt.Sprintf(formatString, amount), "0.") + unit.NameShortPlural()
+		return number + unit.NameShortPlural()
 	default:
 		return ""
 	}
